@@ -1,1 +1,4 @@
-pub fn hi(){}
+//! Facade: one `run_case` over all engines.
+#![allow(clippy::all)]
+pub use mmv_base::{capacity_of, caps_for_kind, case, ctx, fmtutil, kinds, plan, tl};
+pub mod dispatch;
